@@ -63,6 +63,7 @@ type Label struct {
 	Doc     string // query mutation sub subfail invalid   (Pay == "doc")
 	Variant int    // wire spelling
 	Big     bool   // query whose answer is ~100 KB (same label: a query)
+	GateCtx bool   // like Gated, but the handler call waits for the cancellation of its context only (nobody opens a gate)
 	Gated   bool   // the handler call of this frame (init callback, resolver, subscribe resolver) blocks on the harness's gate (same label)
 	// lEmit / lSrcEnd: Src is the creation index of the source the script means; Op is filled in
 	// when the label is performed: the operation number of that source (what the model's label
@@ -175,7 +176,11 @@ func (l Label) wire(n int) (data []byte, binary bool) {
 	switch l.Pay {
 	case "none":
 		if l.Gated && l.Type == "init" {
-			s += `,"payload":{"gate":true}`
+			if l.GateCtx {
+				s += `,"payload":{"gatectx":true}`
+			} else {
+				s += `,"payload":{"gate":true}`
+			}
 		}
 	case "junk":
 		s += `,"payload":` + junkPayloads[l.Variant%len(junkPayloads)]
@@ -186,11 +191,15 @@ func (l Label) wire(n int) (data []byte, binary bool) {
 		if l.Big && l.Doc == "query" {
 			q, extra = fmt.Sprintf("{big(n:%d)}", n), nil
 		}
+		gq, gs := "qg", "sg"
+		if l.GateCtx {
+			gq, gs = "qc", "sc"
+		}
 		if l.Gated && l.Doc == "query" {
-			q, extra = fmt.Sprintf("{q:qg(n:%d)}", n), nil
+			q, extra = fmt.Sprintf("{q:%s(n:%d)}", gq, n), nil
 		}
 		if l.Gated && l.Doc == "sub" {
-			q, extra = fmt.Sprintf("subscription{s:sg(n:%d)}", n), nil
+			q, extra = fmt.Sprintf("subscription{s:%s(n:%d)}", gs, n), nil
 		}
 		p := map[string]interface{}{"query": q}
 		for k, v := range extra {
